@@ -2,7 +2,9 @@
 (* Trace validation for C10.  Each TLC-generated scenario is run on the real ServerPool.handle    *)
 (* (real RetryPolicy and CircuitBreakerPolicy injected, transport scripted through the package     *)
 (* variable fnSendRequest); the harness records, in real order under one lock,                     *)
-(*   reset  sc                  the scenario (durations in microseconds)                          *)
+(*   reset  sc                  the scenario (durations in microseconds); sc.cdl: the client's      *)
+(*                              request context carries a deadline of its own - "later": one hour,  *)
+(*                              "earlier": it expires during the call whose script entry is "cdl"   *)
 (*   att    i, w                the i-th call reached the transport, w = microseconds since the    *)
 (*                              previous call returned (rounded up)                                *)
 (*   ret    i, k                the call returns; k = what the transport did (the script entry)    *)
@@ -62,7 +64,7 @@ TNext == Explained \/ TBad
 TInit ==
     /\ l = 1
     /\ sc = [retry |-> FALSE, max |-> 1, stream |-> FALSE, cb |-> "none", tmo |-> FALSE, script |-> <<"ok">>,
-             cancelB |-> 0, base |-> 0, f |-> 0, exp |-> FALSE]
+             cancelB |-> 0, base |-> 0, f |-> 0, exp |-> FALSE, cdl |-> "none"]
     /\ pc = "done" /\ n = 0 /\ outs = <<>> /\ cancelled = FALSE /\ recs = 0 /\ final = NoOutcome
     /\ last = [a |-> "init"]
 
